@@ -149,11 +149,23 @@ def replay_sweep(p):
     return bad, f'circuit "{name}": gradient delivered by the hand-written sweep differs from finite differences'
 
 
+def kl_errs(n):
+    """error sequences for the Knill-Laflamme op: library-generated ones (one factor per qubit) plus sequences with several non-commuting factors on
+    the same / overlapping qubits and a non-Hermitian factor (the order in which the daggered factors are applied matters only there)"""
+    errs = numqi.qec.make_error_list(n, 2 if n < 3 else 3)
+    errs = errs[:4] + errs[-2:]
+    X, Y, Z = numqi.gate.X, numqi.gate.Y, numqi.gate.Z
+    Sg = np.array([[1, 0], [0, 1j]])
+    CX = np.array([[1, 0, 0, 0], [0, 1, 0, 0], [0, 0, 0, 1], [0, 0, 1, 0]], dtype=float)
+    errs = errs + [[([0], X), ([0], Z)], [([0], Sg), ([1], X), ([0], Y)], [([0, 1], CX), ([1], Sg), ([0], X)]]
+    return errs
+
+
 def replay_kl(p):
     rng = np.random.default_rng(3)
     K, n = p['K'], p['n']
     q = rng.normal(size=(K, 2 ** n)) + 1j * rng.normal(size=(K, 2 ** n))
-    errs = numqi.qec.make_error_list(n, 2 if n < 3 else 3)[:6]
+    errs = kl_errs(n)
     qt = torch.tensor(q, requires_grad=True)
     G = torch.tensor(rng.normal(size=(len(errs), K, K)) + 1j * rng.normal(size=(len(errs), K, K)))
     loss = torch.real(torch.sum(torch.conj(G) * numqi.qec.knill_laflamme_inner_product(qt, errs)))
@@ -262,7 +274,7 @@ def run(chk):
     nmax = 3
     chk.bound(lemmas=f'n<={nmax}, every ordered target tuple of size 1..2 and every disjoint control set of size 1..2; state, cotangent and gate matrix fully symbolic '
               '(L1: unitary vocabulary: e^(i phi)[[a,b],[-conj b,conj a]] with |a|^2+|b|^2=1, rzz as a phase diagonal, Swap)',
-              sweeps='3 circuits x (shared / placeholder / controlled / fixed gates), gate matrices and cotangent symbolic; Knill-Laflamme: K=2, n<=3, 6 error sequences')
+              sweeps='3 circuits x (shared / placeholder / controlled / fixed gates), gate matrices and cotangent symbolic; Knill-Laflamme: K=2, n<=3, 9 error sequences incl. several non-commuting factors on overlapping qubits')
     ctx = S.new_ctx('c04')
     with facade.patched():
         # ---- per-gate lemmas
@@ -407,8 +419,7 @@ def run(chk):
     for K, n in ((2, 2), (2, 3)) if quick else ((2, 2), (2, 3), (4, 3)):
         chk.configurations += 1
         q = H.cx_array(f'k{K}{n}_', (K, 2 ** n))
-        errs = numqi.qec.make_error_list(n, 2 if n < 3 else 3)
-        errs = errs[:4] + errs[-2:]
+        errs = kl_errs(n)
         G = H.cx_array(f'kg{K}{n}_', (len(errs), K, K))
         eg = {'numqi.qec._internal': {'torch': torch_facade()}}
         fctx = FakeCtx()
